@@ -395,4 +395,33 @@ def omitted (o : FieldOpts) (omitZeroStructFields omitEmptyLegacy : Bool) (zero 
   (o.omitempty && omitEmptyLegacy && legacyEmpty) ||
   (o.omitempty && !omitEmptyLegacy && jsonEmpty)
 
+/-- Which `f.isZero` closure `handleField` installs for a field (fields.go:219-236); it depends on the field's
+static TYPE only — in particular NOT on whether the field carries the `omitzero` tag. -/
+inductive ZeroKind
+  /-- no `IsZero() bool` in the method set of the type or of its pointer: `f.isZero == nil`, reflect's zero test -/
+  | none
+  /-- interface kind whose method set has `IsZero`: nil interface, or interface holding a nil pointer, or the method -/
+  | iface
+  /-- pointer kind whose method set has `IsZero`: nil pointer, or the method -/
+  | ptr
+  /-- the type itself implements `IsZero`: the method -/
+  | value
+  /-- only the pointer to the type implements `IsZero`: the method on the address -/
+  | addr
+deriving Repr, DecidableEq, Inhabited
+
+/-- `(f.isZero == nil && v.IsZero()) || (f.isZero != nil && f.isZero(v))` (arshal_default.go:1155). -/
+def fieldIsZero (k : ZeroKind) (isNil elemNilPtr methodZero goZero : Bool) : Bool :=
+  match k with
+  | .none => goZero
+  | .iface => isNil || elemNilPtr || methodZero
+  | .ptr => isNil || methodZero
+  | .value => methodZero
+  | .addr => methodZero
+
+/-- The omission decision with the zero test spelled out. -/
+def omittedZ (o : FieldOpts) (omitZeroStructFields omitEmptyLegacy : Bool) (k : ZeroKind)
+    (isNil elemNilPtr methodZero goZero legacyEmpty jsonEmpty : Bool) : Bool :=
+  omitted o omitZeroStructFields omitEmptyLegacy (fieldIsZero k isNil elemNilPtr methodZero goZero) legacyEmpty jsonEmpty
+
 end JsonV.Model.Fields
